@@ -42,6 +42,33 @@ def run(ctx):
     base = sorted(set(base))
     fns = [('discipline_sort_key', athlib.discipline_sort_key, 'key'), ('text_discipline_sort_key', athlib.text_discipline_sort_key, 'text'),
            ('get_distance', athlib.get_distance, 'dist'), ('get_duration_event_time', get_duration_event_time, 'dur'), ('unit_name', unit_name, 'unit')]
+    # ---- the kind classifier of the age grader (anchored beside unit_name): a value, not an exception, for every accepted code;
+    # ---- and spellings of one code (white space inside, letter case) must not land in different families of the programme order
+    from athlib.wma.agegrader import AgeGrader
+    nk = 0; kind_raises = 0
+    for s_ in base:
+        nk += 1
+        try: AgeGrader.event_code_to_kind(s_)
+        except Exception as e_:
+            kind_raises += 1
+            if kind_raises <= 40:
+                ctx.fail('athlib.wma.agegrader.AgeGrader.event_code_to_kind', [s_], 'a kind (the code is accepted by check_event_code)', type(e_).__name__,
+                         note='the kind classifier raises for a valid event code',
+                         replay_py='from athlib.wma.agegrader import AgeGrader\nresult = AgeGrader.event_code_to_kind(%r)' % s_)
+    ctx.count(nk, 'kind_classifier_calls'); ctx.stats['kind_classifier_raises'] = kind_raises
+    nsp = 0
+    for s_ in base:
+        try: n_ = athlib.normalize_event_code(s_)
+        except Exception: continue
+        if n_ == s_: continue
+        try: k1 = athlib.discipline_sort_key(s_); k2 = athlib.discipline_sort_key(n_)
+        except Exception: continue
+        nsp += 1
+        if k1[0] != k2[0]:
+            ctx.fail('athlib.discipline_sort_key', [s_], 'family %r, as for the normalised spelling %r' % (k2[0], n_), repr(k1[:2]),
+                     note='a spelling of the code (white space inside / letter case) is sorted in another family than the code',
+                     replay_py='result = (athlib.discipline_sort_key(%r), athlib.discipline_sort_key(%r))' % (s_, n_))
+    ctx.count(nsp, 'spelling_family_pairs')
     reqs = []; exp = []; meta = []
     keys = {}
     for s in base:
